@@ -225,6 +225,12 @@ def charge_invariances(ctx):
         g = f.rotate90(dnames[0], dnames[1], k=k) if rng.random() < 0.5 else \
             f.rotate90(dnames[1], dnames[0], k=k)
         same("C19.charge.quarter_turn", dft.topological_charge(g, method=method), k=k)
+        # what is stored in invalid cells does not matter
+        if masked:
+            other = arr.copy()
+            other[~valid] = unit(rng.normal(size=(int((~valid).sum()), 3))) * 10.0 ** rng.uniform(-2, 3)
+            same("C19.charge.invalid_cells_ignored",
+                 dft.topological_charge(field(other), method=method))
         # reversal of all vectors
         q = dft.topological_charge(field(-arr), method=method)
         ctx.check("C19.charge.reversal", np.isfinite(q) and abs(q + q0) <= tol, got=q, **mi)
@@ -370,7 +376,11 @@ def neighbour_angles(ctx):
         ref = ref_angle(u[tuple(sl1)], u[tuple(sl2)])
         per_axis.append(ref)
         for units in ("rad", "deg"):
-            g = dft.neighbouring_cell_angle(f, direction=direction, units=units)
+            okc, g = ctx.expect_ok("C19.angle.accepted", dft.neighbouring_cell_angle, f,
+                                   direction=direction, units=units,
+                                   what=dict(info, direction=direction, units=units))
+            if not okc:
+                continue
             exp_n = n.copy()
             exp_n[ax] -= 1
             e = np.zeros(3)
